@@ -1,0 +1,28 @@
+//go:build verif
+
+package meta
+
+import "github.com/hashicorp/raft"
+
+// VerifFSM drives a storeFSM without raft for the external verification harness:
+// commands are handed to storeFSM.Apply as raft log entries with an explicit index and
+// term, and the current metadata value is read back.
+type VerifFSM struct{ s *store }
+
+// NewVerifFSM returns a fresh store (as newStore makes it) that has no raft instance:
+// isLeader() is false, so RemovePeerCommand does not touch raft.
+func NewVerifFSM(retentionAutoCreate bool) *VerifFSM {
+	c := NewConfig()
+	c.RetentionAutoCreate = retentionAutoCreate
+	s := newStore(c, "", "")
+	s.raftState = &raftState{}
+	return &VerifFSM{s: s}
+}
+
+// Apply calls storeFSM.Apply on a log entry carrying the marshalled internal.Command.
+func (f *VerifFSM) Apply(index, term uint64, cmd []byte) interface{} {
+	return (*storeFSM)(f.s).Apply(&raft.Log{Index: index, Term: term, Type: raft.LogCommand, Data: cmd})
+}
+
+// Data returns the store's current metadata value (not a copy).
+func (f *VerifFSM) Data() *Data { return f.s.data }
